@@ -166,28 +166,20 @@ Section Bridge.
   (* -------------------------------------------------------------------------------------------- *)
   (* 3-D array -> nested *)
 
-  Lemma bridge_from_3d_numpy_to_nested n c T X cn b :
-    wf_panel n c T X -> names_ok c cn ->
-    gen_from_3d_numpy_to_nested X cn b = Ok (a3_to_nested cn (kind_of b) X).
+  (* the column-by-column loop, whatever way the generated code spells it: any step function
+     that sets column `label` to the cells X[0..n-1, j, :] *)
+  Lemma columns_loop n c T X k (nms : list name) (F : @dfb V -> nat * name -> @dfb V) :
+    wf_panel n c T X -> length nms = c -> NoDup nms ->
+    (forall df jc, F df jc =
+                   df_setcol df (snd jc) (map (fun i => mk_cell k (np_get3 X i (fst jc))) (py_range n))) ->
+    df_finish (fold_left F (py_enumerate nms) pd_DataFrame_empty) = mkN k nms X.
   Proof.
-    intros Hwf Hn. rewrite (a3_to_nested_eq n c T X Hwf).
-    unfold gen_from_3d_numpy_to_nested, np_shape3.
-    rewrite (wf_len n c T X Hwf), (wf_shape_cols n c T X Hwf).
-    assert (Hnames : match cn with
-                     | None => Ok (gen_make_column_names c)
-                     | Some l => if negb (Nat.eqb (length l) c) then Err else Ok l
-                     end = Ok (names_or_default cn c)).
-    { destruct cn as [l|]; cbn [names_or_default].
-      - destruct Hn as [Hl _]. rewrite Hl, Nat.eqb_refl. reflexivity.
-      - rewrite bridge_make_column_names. reflexivity. }
-    rewrite Hnames. cbn [rbind]. set (nms := names_or_default cn c).
-    assert (Hlen : length nms = c) by (apply names_or_default_length; exact Hn).
-    assert (Hnd : NoDup nms) by (apply names_or_default_NoDup; exact Hn).
-    set (col := fun j => map (fun i => mk_cell (kind_of b) (np_get3 X i j)) (py_range n)).
-    rewrite (fold_setcol _ snd (fun jc => col (fst jc)) (py_enumerate nms) pd_DataFrame_empty).
-    2:{ intros df [j cl]. destruct b; reflexivity. }
+    intros Hwf Hlen Hnd HF.
+    set (col := fun j => map (fun i => mk_cell k (np_get3 X i j)) (py_range n)).
+    rewrite (fold_setcol F snd (fun jc => col (fst jc)) (py_enumerate nms) pd_DataFrame_empty).
+    2:{ intros df jc. apply HF. }
     2:{ cbn. unfold py_enumerate. rewrite map_snd_combine by apply seq_length. exact Hnd. }
-    cbn [pd_DataFrame_empty app]. f_equal. unfold df_finish, dfb_columns.
+    cbn [pd_DataFrame_empty app]. unfold df_finish, dfb_columns.
     assert (Hn1 : (1 <= n)%nat) by (destruct Hwf; lia).
     assert (Hc1 : (1 <= c)%nat) by (destruct Hwf as [_ [? _]]; lia).
     assert (Hfst : map fst (py_enumerate nms) = seq 0 c)
@@ -215,11 +207,31 @@ Section Bridge.
       intros inst Hi. apply (wf_inst n c T X Hwf inst Hi).
   Qed.
 
+  Lemma bridge_from_3d_numpy_to_nested n c T X cn b :
+    wf_panel n c T X -> names_ok c cn ->
+    gen_from_3d_numpy_to_nested X cn b = Ok (a3_to_nested cn (kind_of b) X).
+  Proof.
+    intros Hwf Hn. rewrite (a3_to_nested_eq n c T X Hwf).
+    unfold gen_from_3d_numpy_to_nested, np_shape3.
+    rewrite (wf_len n c T X Hwf), (wf_shape_cols n c T X Hwf).
+    assert (Hlen : length (names_or_default cn c) = c) by (apply names_or_default_length; exact Hn).
+    assert (Hnd : NoDup (names_or_default cn c)) by (apply names_or_default_NoDup; exact Hn).
+    (* whichever way the names are selected / validated: decide it, then run the loop *)
+    destruct cn as [l|]; cbn [names_or_default] in *.
+    - destruct Hn as [Hl _]. rewrite ?Hl, ?Nat.eqb_refl. cbn [negb rbind]. f_equal.
+      apply (columns_loop n c T X (kind_of b) l _ Hwf Hlen Hnd).
+      intros df [j cl]. destruct b; cbn [fst snd kind_of]; rewrite ?map_map; reflexivity.
+    - rewrite ?bridge_make_column_names. cbn [negb rbind]. f_equal.
+      apply (columns_loop n c T X (kind_of b) (default_names c) _ Hwf Hlen Hnd).
+      intros df [j cl]. destruct b; cbn [fst snd kind_of]; rewrite ?map_map; reflexivity.
+  Qed.
+
   Lemma bridge_from_3d_numpy_to_nested_rejects n c T X l b :
     wf_panel n c T X -> length l <> c -> gen_from_3d_numpy_to_nested X (Some l) b = Err.
   Proof.
     intros Hwf Hl. unfold gen_from_3d_numpy_to_nested, np_shape3.
-    rewrite (wf_shape_cols n c T X Hwf). apply Nat.eqb_neq in Hl. rewrite Hl. reflexivity.
+    rewrite (wf_shape_cols n c T X Hwf). apply Nat.eqb_neq in Hl. rewrite ?Hl. cbn [negb rbind].
+    reflexivity.
   Qed.
 
   (* -------------------------------------------------------------------------------------------- *)
@@ -234,18 +246,27 @@ Section Bridge.
     intro H. induction l as [|a l IH]; [reflexivity|]. cbn. rewrite H, IH. reflexivity.
   Qed.
 
+  Lemma cells_frame k t :
+    t <> [] ->
+    df_finish (df_of_cells (map (fun i => mk_cell k (np_get2 t i)) (py_range (length t)))) =
+    tab_to_nested k t.
+  Proof.
+    intro Hne. unfold tab_to_nested, df_finish, df_of_cells, dfb_columns, dfb_kind, dfb_nrows, py_range.
+    cbn [map fst snd]. rewrite !map_map. cbn [snd mk_cell].
+    assert (Hrows : map (fun i => np_get2 t i) (seq 0 (length t)) = t) by apply at_table.
+    rewrite Hrows, map_length, seq_length. f_equal.
+    - destruct t as [|r t']; [congruence|]. reflexivity.
+    - apply transpose_one_column.
+  Qed.
+
   Lemma bridge_from_2d_array_to_nested t b :
     t <> [] -> gen_from_2d_array_to_nested t b = Ok (tab_to_nested (kind_of b) t).
   Proof.
-    intro Hne. unfold gen_from_2d_array_to_nested, np_shape2, tab_to_nested.
-    rewrite (rmapM_ext_ok (fun i => mk_cell (kind_of b) (np_get2 t i))).
-    - cbn [rbind]. f_equal. unfold df_finish, df_of_cells, dfb_columns, dfb_kind, dfb_nrows, py_range.
-      cbn [map fst snd]. rewrite !map_map. cbn [snd mk_cell].
-      assert (Hrows : map (fun i => np_get2 t i) (seq 0 (length t)) = t) by apply at_table.
-      rewrite Hrows, map_length, seq_length. f_equal.
-      + destruct t as [|r t']; [congruence|]. reflexivity.
-      + apply transpose_one_column.
-    - intros i. destruct b; reflexivity.
+    intro Hne. unfold gen_from_2d_array_to_nested, np_shape2.
+    (* decide the container first: however container / kwargs are selected, each case computes *)
+    destruct b; cbn [kind_of];
+      (rewrite (rmapM_ext_ok (fun i => mk_cell _ (np_get2 t i))) by (intro i; reflexivity));
+      cbn [rbind]; f_equal; apply cells_frame; exact Hne.
   Qed.
 
   (* -------------------------------------------------------------------------------------------- *)
@@ -343,7 +364,8 @@ Section Bridge.
     set (g := fun e : name * @kser V =>
                 map (mk_cell (kind_of b)) (map (fun id => kser_xs_values (snd e) id 0%nat) ids)).
     rewrite (fold_setcol _ fst g (mi_items m) pd_DataFrame_empty).
-    2:{ intros df [lab ser]. destruct b; reflexivity. }
+    2:{ intros df [lab ser]. unfold g. destruct b; cbn [fst snd kind_of]; rewrite ?map_map;
+        reflexivity. }
     2:{ cbn. unfold mi_items, py_enumerate. rewrite map_map. cbn [fst].
         rewrite map_snd_combine by apply seq_length. exact Hnd. }
     cbn [pd_DataFrame_empty app].
@@ -494,14 +516,12 @@ Section Bridge.
     set (f := fun idx : Z =>
            let inst := concat (at_ (n_rows x) (Z.to_nat (idx - 0))) in
            @block_rows V (length (hd [] inst)) (idx, inst)).
-    rewrite (fold_append _ f).
-    - assert (Hids : (if is_none a then nested_index_unique x else nested_index_unique x) =
-                     ziota 0 (length (n_rows x))) by (destruct a; reflexivity).
-      rewrite Hids. cbn [app]. unfold mi_of_rows, pd_concat_rows, nested_to_mi. f_equal.
+    rewrite (map_ext _ f).
+    - unfold nested_index_unique. unfold mi_of_rows, pd_concat_rows, nested_to_mi. f_equal.
       rewrite flat_map_concat_map. f_equal. unfold f.
       rewrite (ziota_at_enum (n_rows x) (fun idx inst => @block_rows V (length (hd [] inst)) (idx, inst)) 0).
       rewrite enum_enum_from. apply map_ext. intros [i inst]. reflexivity.
-    - intros acc idx. cbv zeta. f_equal. f_equal. unfold f. cbv zeta. rewrite Z.sub_0_r.
+    - intros idx. cbv zeta. unfold f. cbv zeta. rewrite Z.sub_0_r.
       set (inst := concat (at_ (n_rows x) (Z.to_nat idx))).
       (* the cells of row idx, as Series *)
       assert (Hsers : map cell_values
